@@ -28,7 +28,9 @@ var (
 	i32Pool = []int32{0, 1, -1, math.MaxInt32, math.MinInt32, 77}
 	intPool = []int{0, 1, -1, math.MaxInt32, 1 << 31, 1<<32 - 1, math.MaxInt64, math.MinInt64, 30}
 	fmPool  = []os.FileMode{0, 0o644, 0o777, os.ModeDevice | 0o660, os.ModeDevice | os.ModeCharDevice | 0o600, os.ModeDir | 0o755, math.MaxUint32}
-	strPool = []string{"", "a", "0-3", "with space", "k=v", "=", "a=b=c", `q"uote`, "/dev/null", "rprivate", "2MB", "-x", "memory.max", "c"}
+	strPool = []string{"", "a", "0-3", "with space", "k=v", "=", "a=b=c", `q"uote`, "/dev/null", "rprivate", "2MB", "-x", "memory.max", "c",
+		// paths that are not in filepath.Clean form, upper/lower case twins, option words with a meaning elsewhere
+		"/dev//double", "/dev/snd/", "/dev/./dot", "/dev/snd/../zero", "//dev/lead", "Dev", "dev", "relabel", "rshared", " pad "}
 )
 
 const asciiSet = "abcdefghijklmnopqrstuvwxyzABCDEFGHIJKLMNOPQRSTUVWXYZ0123456789_-./=: ,"
